@@ -516,7 +516,7 @@ def run(tier, replay=None):
     if replay:
         print(json.dumps(json.load(open(replay)), indent=1)[:3000])
         return 0
-    proof = common.prove(report, "C17", ["protoconsts"], extra_targets=["Run/C17Run.vo"])
+    proof = common.prove(report, "C17", ["protoconsts", "secsiline"], extra_targets=["Run/C17Run.vo"])
     ok, log = common.coq_make(["Run/C17Run.vo"])
     if not ok:
         report.violation({"kind": "broken-obligation", "obligation": "Run/C17Run.vo does not build against the regenerated constants", "detail": log[-1500:], "also": proof.get("broken")}, False, tag="modelbuild")
